@@ -298,6 +298,15 @@ Definition read_la (p : la_probe) : comp json :=
 (* the comparator                                                      *)
 (* ------------------------------------------------------------------ *)
 
+(* the value compared as a keyed collection is None or a list of dicts *)
+Definition is_jmap (j : json) : bool := match j with JMap _ => true | _ => false end.
+Definition shape_ok (cv : json) : bool :=
+  match cv with
+  | JNull => true
+  | JList l => forallb is_jmap l
+  | _ => false
+  end.
+
 Section Loops.
   (* the recursive call validate_match(target, actual, last_applied_value, compare_list_as_set) *)
   Variable rec : json -> json -> json -> bool -> outs.
@@ -322,6 +331,8 @@ Section Loops.
         | inl (Ret cv) =>
             match lookup k cfg with
             | Some fields =>
+                (* `if compare_value is not None and not (list of dicts): return mismatch` *)
+                if negb (shape_ok cv) then O_false else
                 match list_to_object tv fields with
                 | Ret T =>
                     match list_to_object cv fields with
@@ -398,8 +409,16 @@ Section Loops.
     end.
 End Loops.
 
-(* member of a Python set: hash/eq conflate True/1/1.0 *)
-Definition set_mem (x : json) (l : list json) : bool := existsb (py_eq x) l.
+(* member of the set {(isinstance(v, bool), v) for v in ...}: the pair keeps a
+   bool apart from the int / float it equals (1 and 1.0 are still one member) *)
+Definition set_elem_eq (x y : json) : bool :=
+  match x, y with
+  | JBool a, JBool b => Bool.eqb a b
+  | JBool _, _ => false
+  | _, JBool _ => false
+  | _, _ => py_eq x y
+  end.
+Definition set_mem (x : json) (l : list json) : bool := existsb (set_elem_eq x) l.
 
 (* _validate_set_match *)
 Definition set_match (tl al : list json) : outs :=
@@ -613,6 +632,10 @@ Inductive deviates : json -> bool -> list step -> json -> json -> Prop :=
     list_to_object v' fields = Ret A' ->
     deviates T false p A A' ->
     deviates (JMap tk) s (SKey k :: p) (JMap ak) (JMap (set_key k v' ak))
+| dev_key_as_map_retyped tk s ak k tv v' sk lk cfg fields :   (* no longer null / a list of maps *)
+    dirs_of tk = Some (sk, lk, cfg) -> lookup k tk = Some tv -> specified_key lk k = true ->
+    lookup k cfg = Some fields -> shape_ok v' = false ->
+    deviates (JMap tk) s [SKey k] (JMap ak) (JMap (set_key k v' ak))
 | dev_idx tl al i t a a' p :
     nth_error tl i = Some t -> nth_error al i = Some a ->
     deviates t false p a a' ->
@@ -761,8 +784,8 @@ Inductive decorates : json -> bool -> json -> json -> Prop :=
     (forall k tv v fields T A, In (k, tv) tk -> specified_key lk k = true ->
        lookup k cfg = Some fields -> lookup k ak = Some v ->
        list_to_object tv fields = Ret T -> list_to_object v fields = Ret A ->
-       exists v' A', lookup k ak' = Some v' /\ list_to_object v' fields = Ret A' /\
-                     decorates T false A A') ->
+       exists v' A', lookup k ak' = Some v' /\ shape_ok v' = true /\
+                     list_to_object v' fields = Ret A' /\ decorates T false A A') ->
     decorates (JMap tk) s (JMap ak) (JMap ak')
 | dec_list tl al al' :
     List.length al' = List.length al ->
